@@ -11,7 +11,4 @@ def run(ctx):
                         "UniqueByKey uses parity as key, Filter 'odd' as predicate", "FlexSlice: capacity is compared as structure only; appends that grow the backing array are exercised by the random driver (Go's growth policy is the runtime's)"]
 
 def replay(ctx, rp):
-    if rp.get("component") == "FlexSlice":
-        return vlib.generic_replay(ctx, rp)
-    vlib.log("replay: the file holds the concrete input; re-run ./check C14")
-    return 2
+    return vlib.replay_any(ctx, rp)
